@@ -5,9 +5,11 @@
       targets == the union of locs(t) over the given targets (each target AND the containers holding it: a task reading such a container
       as a whole must be scheduled after the knob -- defect F28 was the missing closure)
   run()
-      with v = value of the source, delta = v - prev_value:   for i = 0 .. n-1 in order:  target_i  <-  value(target_i) + weights_i * delta
-      (each read on the data as left by the previous store), then prev_value <- v;   nothing else is stored.
-      Spec function  KH(k) = the data after the first k stores, by recursion on k.
+      with v = value of the source:   for i = 0 .. n-1 in order:  target_i  <-  value(target_i) + weights_i * (v - prev_values_i)
+      (each read on the data as left by the previous store) and prev_values_i <- v right after its store; then prev_value <- v; nothing else
+      is stored.  Spec function  KH(k) = the data after the first k stores, by recursion on k.
+      If a read or a store raises at target k, the data are KH(k) and exactly the first k records hold v: repeating run() adds
+      w_i * (v - v) to those and the full change to the others (C18: recoverable; the single shared prev_value of the pinned tree was F29)
 
 Arithmetic on the values is opaque (py_sub / py_add / py_mul: C04 decides what they compute); weights and targets have equal lengths
 (zip would silently stop at the shorter one); user-level failures (UserError) leave whatever was stored so far.
@@ -23,22 +25,23 @@ i, k = z3.Ints("i!k k!k")
 A_IV = z3.ArraySort(IntS, V)
 A_VB = z3.ArraySort(V, BoolS)
 TSeqV = TSeq(TV)
-TKnob = TRec("LinearKnob", dict(taskid=TV, source=TV, dependencies=TSet, knob_targets=TSeqV, targets=TSet, prev_value=TV, weights=TSeqV))
+TKnob = TRec("LinearKnob", dict(taskid=TV, source=TV, dependencies=TSet, knob_targets=TSeqV, targets=TSet, prev_value=TV, prev_values=TSeqV,
+                                weights=TSeqV))
 
-KH = z3.Function("knob_heap_after", V, V, A_IV, A_IV, IntS, V)           # heap0, delta, weights, targets, number of stores done -> heap
+KH = z3.Function("knob_heap_after", V, V, A_IV, A_IV, A_IV, IntS, V)     # heap0, source value, weights, targets, per-target previous, stores done -> heap
 UN = z3.Function("knob_targets_union", A_IV, IntS, A_VB)                 # targets, number of targets looked at -> set of locations
 
 
-def kh_axioms(h0, delta, w, t):
+def kh_axioms(h0, v, w, t, pv):
     a, b = z3.Consts("a!kc b!kc", V)
-    return z3.And(KH(h0, delta, w, t, 0) == h0,
+    return z3.And(KH(h0, v, w, t, pv, 0) == h0,
                   # the knob's values are numbers (or arrays of numbers): addition and multiplication commute
                   z3.ForAll([a, b], py_add(a, b) == py_add(b, a), patterns=[py_add(a, b)]),
                   z3.ForAll([a, b], py_mul(a, b) == py_mul(b, a), patterns=[py_mul(a, b)]),
-                  z3.ForAll([k], z3.Implies(k >= 0, KH(h0, delta, w, t, k + 1) == hstore(
-                      KH(h0, delta, w, t, k), z3.Select(t, k),
-                      py_add(evalv(z3.Select(t, k), KH(h0, delta, w, t, k)), py_mul(z3.Select(w, k), delta)))),
-                      patterns=[KH(h0, delta, w, t, k + 1)]))
+                  z3.ForAll([k], z3.Implies(k >= 0, KH(h0, v, w, t, pv, k + 1) == hstore(
+                      KH(h0, v, w, t, pv, k), z3.Select(t, k),
+                      py_add(evalv(z3.Select(t, k), KH(h0, v, w, t, pv, k)), py_mul(z3.Select(w, k), py_sub(v, z3.Select(pv, k)))))),
+                      patterns=[KH(h0, v, w, t, pv, k + 1)]))
 
 
 def un_axioms(t):
@@ -47,31 +50,43 @@ def un_axioms(t):
                             patterns=[z3.Select(UN(t, k + 1), x)]))
 
 
-def _delta(p):
-    return py_sub(evalv(p.self.source.t, p.heap.t), p.self.prev_value.t)
+def _v(p):
+    return evalv(p.self.source.t, p.heap.t)
 
 
 def _kh(p, kk):
-    return KH(p.heap.t, _delta(p), p.self.weights.arr, p.self.knob_targets.arr, kk)
+    return KH(p.heap.t, _v(p), p.self.weights.arr, p.self.knob_targets.arr, p.self.prev_values.arr, kk)
+
+
+def _applied(p, c, kk):
+    """the first kk targets have received the change and remember the new source value; the others remember what they did before"""
+    pv = c.self.prev_values
+    return z3.And(c.heap.t == _kh(p, kk), pv.n == p.self.prev_values.n,
+                  z3.ForAll([i], pv.at(i) == z3.If(z3.And(0 <= i, i < kk), _v(p), p.self.prev_values.at(i)), patterns=[pv.at(i)]))
 
 
 KNOB_RUN = Contract(
-    module=M, qualname="LinearKnob.run", params=dict(self=TKnob), ghost=dict(heap=TV),
-    requires=[("as-many-weights-as-targets", lambda p: p.self.weights.n == p.self.knob_targets.n)],
-    axioms=[lambda p: kh_axioms(p.heap.t, _delta(p), p.self.weights.arr, p.self.knob_targets.arr)],
-    ensures=[("every target, in order, receives its value plus weight * (source - previous source); nothing else is stored",
-              lambda o, n, r: n.heap.t == _kh(o, o.self.knob_targets.n)),
-             ("the source value is remembered for the next run", lambda o, n, r: n.self.prev_value.t == evalv(o.self.source.t, o.heap.t))],
-    raises={"UserError": dict(when=None, post=[], modifies=("heap",))},
-    modifies=("heap", "self.prev_value"),
-    loops={0: LoopSpec(anchor="zip(self.weights, self.knob_targets)",
-                       invariants=[("data == after-the-first-k-stores", lambda L: z3.And(
-                           0 <= L.k, L.k <= L.n, L.n == L.old.self.knob_targets.n, L.cur.heap.t == _kh(L.old, L.k),
-                           L.cur.delta.t == _delta(L.old), L.cur.value.t == evalv(L.old.self.source.t, L.old.heap.t)))],
-                       modifies=("heap",))},
+    module=M, qualname="LinearKnob.run", params=dict(self=TKnob), ghost=dict(heap=TV, kfail=TInt),
+    requires=[("as-many-weights-and-records-as-targets", lambda p: z3.And(p.self.weights.n == p.self.knob_targets.n,
+                                                                        p.self.prev_values.n == p.self.knob_targets.n)),
+              ("ghost: no target reached yet", lambda p: p.kfail.t == 0)],
+    axioms=[lambda p: kh_axioms(p.heap.t, _v(p), p.self.weights.arr, p.self.knob_targets.arr, p.self.prev_values.arr),
+            lambda p: p.self.knob_targets.n >= 0],
+    ensures=[("every target, in order, receives its value plus weight * (source - the source value last applied to IT); nothing else is stored; "
+              "every target remembers the new source value", lambda o, n, r: _applied(o, n, o.self.knob_targets.n)),
+             ("the source value is remembered", lambda o, n, r: n.self.prev_value.t == _v(o))],
+    raises={"UserError": dict(when=None, modifies=("heap", "self.prev_values", "kfail"), post=[
+        ("a failing read / store leaves exactly the first k targets changed AND recorded as changed: repeating run() adds nothing to them and the "
+         "full change to the others", lambda o, n: z3.And(0 <= n.kfail.t, n.kfail.t <= o.self.knob_targets.n, _applied(o, n, n.kfail.t)))])},
+    modifies=("heap", "self.prev_value", "self.prev_values"),
+    loops={0: LoopSpec(anchor="enumerate(zip(self.weights, self.knob_targets))",
+                       invariants=[("the first k targets changed and recorded", lambda L: z3.And(
+                           0 <= L.k, L.k <= L.n, L.n == L.old.self.knob_targets.n, _applied(L.old, L.cur, L.k),
+                           L.cur.value.t == _v(L.old)))],
+                       modifies=("heap",), on_raise=lambda L, st: st.env.__setitem__("kfail", PyInt(L.k)))},
     call_ghost={("BaseRef._get_value", None): lambda st, pre: dict(heap=st.heap),
                 ("MutableRef._set_value", None): lambda st, pre: dict(heap=st.heap)},
-    min_obligations=4,
+    min_obligations=5,
     extra=dict(engine=KnobEngine, ghost_writeback={"heap": "heap"}, frame_ghosts=False))
 
 
@@ -92,12 +107,16 @@ KNOB_INIT = Contract(
              ("knob_targets == the given targets, in order", lambda o, n, r: n.self.knob_targets.same(o.targets)),
              ("targets == every given target and every container holding one (union of locs)",
               lambda o, n, r: n.self.targets.arr == UN(o.targets.arr, o.targets.n)),
-             ("prev_value == the source's current value", lambda o, n, r: n.self.prev_value.t == evalv(o.source.t, o.heap.t))],
+             ("prev_value == the source's current value", lambda o, n, r: n.self.prev_value.t == evalv(o.source.t, o.heap.t)),
+             ("one record per target, each the source's current value", lambda o, n, r: z3.And(
+                 n.self.prev_values.n == o.targets.n,
+                 z3.ForAll([i], z3.Implies(z3.And(0 <= i, i < o.targets.n), n.self.prev_values.at(i) == evalv(o.source.t, o.heap.t)),
+                           patterns=[n.self.prev_values.at(i)])))],
     raises={"UserError": dict(when=None, post=[], modifies=("self",))},
     modifies=("self",),
     loops={0: LoopSpec(anchor="self.knob_targets", invariants=[("targets == union over the first k", _init_inv)])},
     call_ghost={("BaseRef._get_value", None): lambda st, pre: dict(heap=st.heap)},
-    min_obligations=6,
+    min_obligations=7,
     extra=dict(engine=KnobEngine, frame_ghosts=False))
 
 CONTRACTS = [KNOB_RUN, KNOB_INIT]
